@@ -617,8 +617,28 @@ fn parse_ext(fam: u8, te: bool, msg: &[u8]) -> Option<Value> {
             }
         }
     }
+    // the same extension through the conversion the tracer reports to its users (trippy-core Extensions)
+    let mut core_ok = false;
+    let core: Value = match ext {
+        None => json!([]),
+        Some(e) => match trippy_core::Extensions::try_from(e) {
+            Err(_) => json!([]),
+            Ok(x) => {
+                core_ok = true;
+                json!(x
+                .extensions
+                .iter()
+                .map(|o| match o {
+                    trippy_core::Extension::Unknown(u) => json!({"cls":u.class_num,"sub":u.class_subtype,"plen":u.bytes.len(),"mpls":[]}),
+                    trippy_core::Extension::Mpls(m) => json!({"cls":1,"sub":-1,"plen":m.members.len() * 4,
+                        "mpls":m.members.iter().map(|k| json!([k.label, k.exp, k.bos, k.ttl])).collect::<Vec<_>>()}),
+                })
+                .collect::<Vec<_>>())
+            }
+        },
+    };
     Some(json!({"len_field":len_field,"p_off":p_off,"p_len":payload.len(),"has_ext":ext.is_some(),"e_off":e_off,"e_len":e_len,
-        "total":total,"version":version,"objs":objs,"iters":iters}))
+        "total":total,"version":version,"objs":objs,"iters":iters,"core":core,"core_ok":core_ok}))
 }
 
 fn offset_of(outer: &[u8], inner: &[u8]) -> usize {
